@@ -4,6 +4,8 @@ import (
 	"encoding/json"
 	"fmt"
 	"math"
+	"sync"
+	"sync/atomic"
 	"time"
 
 	tally "github.com/uber-go/tally/v4"
@@ -25,8 +27,12 @@ type c19Op struct {
 }
 type c19Case struct {
 	Cached bool      `json:"cached"`
-	Caps   [][2]bool `json:"caps"`
+	Caps   [][2]bool `json:"caps"` // one entry per leaf (recording reporter), in call order
 	Ops    []c19Op   `json:"ops"`
+	// Groups, when set, nests the leaves: entry g >= 0 is a nested multi reporter over the next g
+	// leaves, -1 a leaf given directly (a multi reporter is itself a reporter: "each child" then
+	// reaches every leaf once, in order)
+	Groups []int `json:"groups,omitempty"`
 }
 
 var interestingI64 = []int64{0, 1, -1, 2, 7, 100, math.MaxInt64, math.MinInt64, math.MaxInt64 - 1, 1 << 32, -(1 << 40)}
@@ -87,6 +93,23 @@ func c19Gen(r *Rng, i int) c19Case {
 	}
 	for j := 0; j < n; j++ {
 		c.Caps = append(c.Caps, [2]bool{r.Chance(75), r.Chance(75)})
+	}
+	if i >= 4 && i%3 == 0 && n > 0 {
+		// nested multi reporters in every position, with 0, 1 or more leaves
+		left := n
+		for left > 0 {
+			switch g := r.Intn(4); {
+			case g == 0:
+				c.Groups = append(c.Groups, -1)
+				left--
+			case g == 1 && r.Chance(30):
+				c.Groups = append(c.Groups, 0)
+			default:
+				k := r.Range(1, left)
+				c.Groups = append(c.Groups, k)
+				left -= k
+			}
+		}
 	}
 	nops := r.Range(1, 24)
 	nh, nb := 0, 0
@@ -155,7 +178,21 @@ func c19Run(c *c19Case) (in []Ev, glog []Ev, oc [2]bool, fail string) {
 		for i := range kids {
 			kids[i] = &RecReporter{L: log, Src: i, Caps: caps{c.Caps[i][0], c.Caps[i][1]}}
 		}
-		m := multi.NewMultiReporter(kids...)
+		top := kids
+		if c.Groups != nil {
+			top = nil
+			at := 0
+			for _, g := range c.Groups {
+				if g < 0 {
+					top = append(top, kids[at])
+					at++
+				} else {
+					top = append(top, multi.NewMultiReporter(kids[at:at+g]...))
+					at += g
+				}
+			}
+		}
+		m := multi.NewMultiReporter(top...)
 		for _, o := range c.Ops {
 			var e Ev
 			switch o.K {
@@ -192,7 +229,21 @@ func c19Run(c *c19Case) (in []Ev, glog []Ev, oc [2]bool, fail string) {
 		for i := range kids {
 			kids[i] = &RecCached{L: log, Src: i, Caps: caps{c.Caps[i][0], c.Caps[i][1]}}
 		}
-		m := multi.NewMultiCachedReporter(kids...)
+		top := kids
+		if c.Groups != nil {
+			top = nil
+			at := 0
+			for _, g := range c.Groups {
+				if g < 0 {
+					top = append(top, kids[at])
+					at++
+				} else {
+					top = append(top, multi.NewMultiCachedReporter(kids[at:at+g]...))
+					at += g
+				}
+			}
+		}
+		m := multi.NewMultiCachedReporter(top...)
 		type handle struct {
 			k int
 			c tally.CachedCount
@@ -323,6 +374,9 @@ func init() {
 		one := func(c *c19Case) {
 			in, glog, oc, fail := c19Run(c)
 			cls := fmt.Sprintf("%s/children=%d", map[bool]string{false: "plain", true: "cached"}[c.Cached], len(c.Caps))
+			if c.Groups != nil {
+				cls += "/nested"
+			}
 			key := ""
 			if len(c.Caps) > 0 && len(glog) > 0 {
 				key = hashOf(c)
@@ -352,5 +406,114 @@ func init() {
 			c := c19Gen(ctx.R, i)
 			one(&c)
 		}
+		// "every flush results in exactly one call on each child" also when flushes overlap: the first
+		// Flush is held inside a child while further goroutines flush; every child must have been
+		// flushed once per Flush call when all have returned (direct predicate; counts only)
+		for i := 0; i < ctx.N(24, 200); i++ {
+			cached := i%2 == 1
+			nk := ctx.R.Range(1, 4)
+			nf := ctx.R.Range(2, 4)
+			hold := ctx.R.Intn(nk)
+			got, what := c19Overlap(cached, nk, nf, hold)
+			c := map[string]interface{}{"stream": "overlapping-flush", "cached": cached, "children": nk, "flushes": nf, "held_in_child": hold}
+			ctx.Case(c, "", "overlapping-flush/"+map[bool]string{false: "plain", true: "cached"}[cached], fmt.Sprintf("ov/%v/%d/%d/%d", cached, nk, nf, hold))
+			if what != "" {
+				ctx.Fail("every_flush_reaches_every_child_once", what, c, got)
+			}
+		}
 	}
+}
+
+// gate: a child whose first Flush blocks until released
+type c19Gate struct {
+	n       *int64
+	first   chan struct{}
+	release chan struct{}
+	once    *sync.Once
+}
+
+func (g *c19Gate) Capabilities() tally.Capabilities { return caps{true, true} }
+func (g *c19Gate) Flush() {
+	atomic.AddInt64(g.n, 1)
+	if g.first != nil {
+		blocked := false
+		g.once.Do(func() { blocked = true })
+		if blocked {
+			close(g.first)
+			<-g.release
+		}
+	}
+}
+
+type c19GateP struct {
+	tally.StatsReporter // only Flush and Capabilities are called in this stream
+	g *c19Gate
+}
+
+func (p c19GateP) Capabilities() tally.Capabilities { return p.g.Capabilities() }
+func (p c19GateP) Flush()                           { p.g.Flush() }
+
+type c19GateC struct {
+	tally.CachedStatsReporter
+	g *c19Gate
+}
+
+func (p c19GateC) Capabilities() tally.Capabilities { return p.g.Capabilities() }
+func (p c19GateC) Flush()                           { p.g.Flush() }
+
+func c19Overlap(cached bool, nk, nf, hold int) ([]int64, string) {
+	counts := make([]int64, nk)
+	first, release := make(chan struct{}), make(chan struct{})
+	var plain []tally.StatsReporter
+	var cach []tally.CachedStatsReporter
+	for i := 0; i < nk; i++ {
+		g := &c19Gate{n: &counts[i]}
+		if i == hold {
+			g.first, g.release, g.once = first, release, &sync.Once{}
+		}
+		plain = append(plain, c19GateP{g: g})
+		cach = append(cach, c19GateC{g: g})
+	}
+	var flush func()
+	if cached {
+		flush = multi.NewMultiCachedReporter(cach...).Flush
+	} else {
+		flush = multi.NewMultiReporter(plain...).Flush
+	}
+	var wg sync.WaitGroup
+	wg.Add(1)
+	go func() { defer wg.Done(); flush() }()
+	<-first // the first flush is inside child [hold]
+	for j := 1; j < nf; j++ {
+		wg.Add(1)
+		go func() { defer wg.Done(); flush() }()
+	}
+	// the later flushes are not gated: let them run to completion, then release the first
+	deadline := time.Now().Add(2 * time.Second)
+	for time.Now().Before(deadline) {
+		done := true
+		for i := range counts {
+			want := int64(nf)
+			if i > hold {
+				want-- // the held flush has not reached the children behind the gate yet
+			}
+			if atomic.LoadInt64(&counts[i]) < want {
+				done = false
+			}
+		}
+		if done {
+			break
+		}
+		time.Sleep(200 * time.Microsecond)
+	}
+	close(release)
+	wg.Wait()
+	got := make([]int64, nk)
+	for i := range counts {
+		got[i] = atomic.LoadInt64(&counts[i])
+		if got[i] != int64(nf) {
+			return got, fmt.Sprintf("%d overlapping Flush calls on a multi reporter with %d children (first held inside child %d): child %d was flushed %d times, expected %d", nf, nk, hold, i, got[i], nf)
+		}
+	}
+	return got, ""
 }
